@@ -256,3 +256,114 @@ func nonNilAtFrom(v ssa.Value, ins ssa.Instruction, start *ssa.BasicBlock, isNil
 	// a parameter has no defining block: wrap by temporarily treating start as entry
 	return nonNilAt(v, ins, isNilHelper)
 }
+
+// MayReturnNil computes the repository functions with a single pointer result
+// that can return nil: a nil constant (directly or through a phi), or the
+// result of another such function returned as is.
+func MayReturnNil(fns []*ssa.Function) map[*ssa.Function]bool {
+	may := map[*ssa.Function]bool{}
+	changed := true
+	for changed {
+		changed = false
+		for _, fn := range fns {
+			if may[fn] || fn.Blocks == nil || fn.Signature.Results().Len() != 1 {
+				continue
+			}
+			if _, isPtr := fn.Signature.Results().At(0).Type().Underlying().(*types.Pointer); !isPtr {
+				continue
+			}
+			for _, b := range fn.Blocks {
+				ret, ok := b.Instrs[len(b.Instrs)-1].(*ssa.Return)
+				if !ok || len(ret.Results) != 1 {
+					continue
+				}
+				vals := []ssa.Value{ret.Results[0]}
+				if ph, isPhi := ret.Results[0].(*ssa.Phi); isPhi {
+					vals = ph.Edges
+				}
+				for _, v := range vals {
+					if k, isK := v.(*ssa.Const); isK && k.Value == nil {
+						may[fn] = true
+					}
+					if c, isCall := v.(*ssa.Call); isCall {
+						if cal := c.Call.StaticCallee(); cal != nil && may[cal] {
+							may[fn] = true
+						}
+					}
+					// comma-ok assertion: the zero value when it fails
+					if ex, isEx := v.(*ssa.Extract); isEx && ex.Index == 0 {
+						if ta, isTA := ex.Tuple.(*ssa.TypeAssert); isTA && ta.CommaOk {
+							may[fn] = true
+						}
+					}
+				}
+			}
+			if may[fn] {
+				changed = true
+			}
+		}
+	}
+	return may
+}
+
+// NilCallSites: dereferences (field access, load, call of a method that is not
+// nil-receiver-safe) of the result of a call to a function that may return nil,
+// without a non-nil test of that result on the way.
+func NilCallSites(fn *ssa.Function, mayNil map[*ssa.Function]bool, isNilHelper func(*ssa.Function) bool, nilSafe func(*ssa.Function) bool) []*Site {
+	var out []*Site
+	src := func(v ssa.Value) *ssa.Call {
+		for i := 0; i < 4; i++ {
+			switch y := v.(type) {
+			case *ssa.ChangeType:
+				v = y.X
+				continue
+			}
+			break
+		}
+		c, ok := v.(*ssa.Call)
+		if !ok {
+			return nil
+		}
+		cal := c.Call.StaticCallee()
+		if cal == nil || !mayNil[cal] {
+			return nil
+		}
+		return c
+	}
+	for _, b := range fn.Blocks {
+		for _, ins := range b.Instrs {
+			var v ssa.Value
+			what := ""
+			switch x := ins.(type) {
+			case ssa.CallInstruction:
+				cc := x.Common()
+				if cal := cc.StaticCallee(); !cc.IsInvoke() && cal != nil && cal.Signature.Recv() != nil && len(cc.Args) > 0 {
+					if _, isPtr := cal.Signature.Recv().Type().(*types.Pointer); isPtr && cal.Blocks != nil && !nilSafe(cal) {
+						v, what = cc.Args[0], "call of "+cal.Name()+" (not nil-receiver-safe)"
+					}
+				}
+			case *ssa.FieldAddr:
+				v, what = x.X, "field access"
+			case *ssa.UnOp:
+				if x.Op == token.MUL {
+					if _, isPtr := x.X.Type().Underlying().(*types.Pointer); isPtr {
+						v, what = x.X, "load"
+					}
+				}
+			}
+			if v == nil {
+				continue
+			}
+			c := src(v)
+			if c == nil {
+				continue
+			}
+			if nonNilAt(c, ins, isNilHelper) {
+				continue
+			}
+			out = append(out, &Site{Class: "P5", Fn: fn, Instr: ins, Pos: ins.Pos(), Shape: "nil-result " + what + " on result of " + c.Call.StaticCallee().Name(),
+				Detail: "dereference of the result of " + c.Call.StaticCallee().Name() + "(), which can be nil, without a non-nil test"})
+		}
+	}
+	return out
+}
